@@ -8,6 +8,8 @@ mod c13;
 mod wrappers_gen;
 mod c14;
 mod c15;
+mod c18;
+mod c19;
 mod gram;
 mod probes_gen;
 mod tok;
@@ -26,6 +28,8 @@ fn main() {
         "C13" => c13::run(&args),
         "C14" => c14::run(&args),
         "C15" => c15::run(&args),
+        "C18" => c18::run(&args),
+        "C19" => c19::run(&args),
         other => vfcommon::die(&format!("direct: no monitor for {other}")),
     };
     std::process::exit(code);
